@@ -186,6 +186,35 @@ pub(crate) struct SolverState {
     name_activity: Vec<f32>,
 }
 
+impl SolverState {
+    /// Registers `candidate_var` as one of the candidates of the package `name_id` and adds the
+    /// clauses that forbid it to be installed together with any other candidate of that package
+    /// that has been registered so far. Registering the same candidate twice is a no-op.
+    pub(crate) fn add_forbid_multiple_clauses(
+        &mut self,
+        candidate_var: VariableId,
+        name_id: NameId,
+    ) {
+        let other_solvables = self.forbidden_clauses_added.entry(name_id).or_default();
+        other_solvables.add(
+            candidate_var,
+            |a, b, positive| {
+                let (watched_literals, kind) = WatchedLiterals::forbid_multiple(
+                    a,
+                    if positive { b.positive() } else { b.negative() },
+                    name_id,
+                );
+                let clause_id = self.clauses.alloc(watched_literals, kind);
+                let watched_literals = self.clauses.watched_literals[clause_id.to_usize()]
+                    .as_mut()
+                    .expect("forbid clause must have watched literals");
+                self.watches.start_watching(watched_literals, clause_id);
+            },
+            || self.variable_map.alloc_forbid_multiple_variable(name_id),
+        );
+    }
+}
+
 impl<D: DependencyProvider> Solver<D, NowOrNeverRuntime> {
     /// Creates a single threaded block solver, using the provided
     /// [`DependencyProvider`].
@@ -338,6 +367,13 @@ impl<D: DependencyProvider, RT: AsyncRuntime> Solver<D, RT> {
                 .assigned_value(additional_var)
                 .is_none()
             {
+                // A soft requirement names a solvable directly, so it might never be seen as a
+                // candidate of a requirement. Make sure it still cannot be installed together
+                // with another solvable of the same package.
+                let name_id = self.provider().solvable_name(additional);
+                self.state
+                    .add_forbid_multiple_clauses(additional_var, name_id);
+
                 self.run_sat(additional.into(), &root_dependencies)?;
             }
         }
